@@ -86,3 +86,75 @@ contract('pyx12.segment.Segment.format',
          raises={},
          serves=['C01', 'C12'],
          note='bounded in shape (see SHAPES); explicit delimiters')
+
+
+# ---- bounded native safety net (C17/C10): designator laws on real segments of ANY shape ----------------------------------------
+def bounded_segment_laws(seed, tier):
+    """seeded real segments (0-8 elements of 1-4 components, empty values included) x designators (with / without segment id,
+    element 01-10, component 1-5): get_value agrees with the view; set then get_value returns the value; every other position
+    keeps its value; missing positions are padded with empty ones; a foreign segment id is refused (EngineError); get_value beyond
+    the data is None"""
+    import random
+    import pyx12.segment
+    import pyx12.errors
+    rnd = random.Random(seed)
+    fails, n = [], 0
+
+    def grid(seg):
+        return [[seg.elements[i][j].get_value() for j in range(len(seg.elements[i]))] for i in range(len(seg.elements))]
+    vals = ['', 'A', 'B1', ' ', '0', 'x y', 'ÿ']
+    for k in range(1500 if tier == 'quick' else 15000):
+        ne = rnd.randint(0, 8)
+        comps = [[rnd.choice(vals) for _ in range(rnd.randint(1, 4))] for _ in range(ne)]
+        sid = rnd.choice(['NM1', 'REF', 'HL', 'SV1'])
+        text = sid + ''.join('*' + ':'.join(c) for c in comps)
+        seg = pyx12.segment.Segment(text, '~', '*', ':')
+        e, c = rnd.randint(1, 10), rnd.choice([None, None, 1, 2, 3, 5])
+        pre = rnd.choice(['', sid])
+        rd = '%s%02d' % (pre, e) + ('' if c is None else '-%d' % c)
+        inp = {'segment': text, 'ref_des': rd}
+        n += 1
+        try:
+            g0 = grid(seg)
+            got = seg.get_value(rd)
+            if e > len(g0):
+                want = None
+            elif c is None:
+                row = list(g0[e - 1])
+                while row and row[-1] == '':
+                    row.pop()
+                want = ':'.join(row)
+            else:
+                want = g0[e - 1][c - 1] if c <= len(g0[e - 1]) else None
+            if got != want:
+                fails.append({'input': inp, 'detail': 'get_value returned %r, the view holds %r' % (got, want)}) if len(fails) < 8 else None
+            if grid(seg) != g0:
+                fails.append({'input': inp, 'detail': 'get_value changed the segment'}) if len(fails) < 8 else None
+            val = rnd.choice(['V', 'W9', '', 'Z Z'])
+            seg.set(rd, val)
+            g1 = grid(seg)
+            back = seg.get_value(rd)
+            if back != val:
+                fails.append({'input': dict(inp, val=val), 'detail': 'set then get_value returned %r' % (back,)}) if len(fails) < 8 else None
+            # frame: every other position as before (positions that did not exist are empty)
+            for i in range(max(len(g0), len(g1))):
+                for j in range(max(len(g0[i]) if i < len(g0) else 0, len(g1[i]) if i < len(g1) else 0)):
+                    if i == e - 1 and (c is None or j == c - 1):
+                        continue
+                    a = g0[i][j] if i < len(g0) and j < len(g0[i]) else ''
+                    b = g1[i][j] if i < len(g1) and j < len(g1[i]) else ''
+                    if a != b and len(fails) < 8:
+                        fails.append({'input': dict(inp, val=val), 'detail': 'set changed position %02d-%d from %r to %r' % (i + 1, j + 1, a, b)})
+            if len(g1) != max(len(g0), e) and len(fails) < 8:
+                fails.append({'input': dict(inp, val=val), 'detail': 'set left %d elements, expected %d' % (len(g1), max(len(g0), e))})
+            # foreign segment id
+            try:
+                seg.get_value('ZZ9%02d' % e if sid != 'ZZ9' else 'QQ%02d' % e)
+                fails.append({'input': inp, 'detail': 'a designator naming another segment was accepted'}) if len(fails) < 8 else None
+            except pyx12.errors.EngineError:
+                pass
+        except Exception as ex:
+            if len(fails) < 8:
+                fails.append({'input': inp, 'detail': 'raised %s: %s' % (type(ex).__name__, str(ex)[:80])})
+    return {'function': 'pyx12.segment.Segment.get_value / set', 'evaluations': n,
+            'bound': 'seeded segments of 0-8 elements x 1-4 components x designators to element 10 / component 5, seed %d' % seed, 'failures': fails}
